@@ -119,6 +119,14 @@ def _contract(eng, cls, natives, oracle):
         check_frame = False
         raises = (OtherException,)
 
+        def setup(self, I):
+            if (eng, cls.__name__) == ("pandas_engine", "ArrowBinary"):
+                # precondition of the forwarding contract: the native type IS a (fixed-size) binary type; other natives: ArrowBinaryKind
+                import pyarrow.types as pt
+
+                I.models[id(pt.is_binary)] = lambda I_, t: cur().choose([("binary", None), ("fixed_size_binary", None)], "kind(native)") == 0
+                I.models[id(pt.is_fixed_size_binary)] = lambda I_, t: True
+
         def make_args(self):
             ctor = SymCallable("cls", T.Any, raises=False)
             native = T.Ref(None, **{a: T.Any for a in attrs}).fresh("native")
